@@ -25,7 +25,7 @@ RULE = ('Hypothesis-generated configurations (min_watermark 0-2, max_watermark 1
         'requests, max-waiters errors exactly when the queue is full and at once, work conservation (a live waiter implies '
         'all connections busy), dead-on-release closes the pool and fails each waiter once with ServiceClosedError; at the '
         'end: every request completed once, at most min_watermark connections retained, and a burst of max requests all '
-        'reach connections (no capacity leaked). Non-trivial = a request expired while queued and a release happened '
+        'reach connections (no capacity leaked), also after the pool has been closed and opened again; a closed pool with nothing in flight keeps no connection open. Non-trivial = a request expired while queued and a release happened '
         'afterwards, or two releases in one instant met a single waiter. distinct = distinct non-trivial plans.')
 ASSUMPTIONS = [
     'a refused open fails the request it was made for and leaves the pool usable (its owner is told through on_faulted; what the owner then does belongs to C09); requests queued at that moment are not followed further',
@@ -404,6 +404,11 @@ class Run(object):
       if not r.completions and not r.excused and not (closed and not r.expect_closed_error and r.conn is None):
         self.fail('never-completed', 'request %d (timeout %r, queued=%r, conn=%r) never completed' % (r.id, r.timeout, r.queued, r.conn))
     if closed:
+      # a closed pool with nothing in flight keeps no connection open (cached, lent at the time, or being handed over)
+      left = [c for c in self.provider.conns if c.closed_at is None and not c.killed and not c.refused]
+      if left:
+        self.fail('connection-open-after-pool-closed', 'the pool is closed and every request has completed, but %r %s still open' % (
+            left, 'is' if len(left) == 1 else 'are'))
       return
     live = self.live_conns()
     if len(live) > self.cfg['min']:
@@ -420,6 +425,32 @@ class Run(object):
     if stuck:
       self.fail('capacity-leaked', 'after all traffic drained, a burst of %d requests left %r without a connection (%d connections in existence)' % (
           self.cfg['max'], stuck, len(self.live_conns())))
+    # second life: the owner closes the pool and opens it again (a resurrector or balancer that is re-opened does);
+    # the full capacity must be there again
+    self.cur_op = ['reopen']
+    for r in list(self.lent()):
+      self.answer(r, 'reply')
+    settle()
+    advance(0.01)
+    self.pool.Close()
+    settle()
+    ar = self.pool.Open()
+    advance(0.2)
+    self.raise_pending()
+    if not ar.ready() or ar.exception:
+      self.fail('reopen-failed', 'pool Open() after Close() did not succeed: %r' % (ar.exception if ar.ready() else 'pending'))
+    self.flags.add('reopened')
+    n1 = len(self.reqs)
+    for _ in range(self.cfg['max']):
+      self.submit(None)
+    advance(0.2)
+    self.raise_pending()
+    stuck = [r.id for r in self.reqs[n1:] if r.conn is None]
+    if stuck:
+      self.fail('capacity-leaked-after-reopen', 'after Close() and Open() a burst of %d requests left %r without a connection (%d connections in existence)' % (
+          self.cfg['max'], stuck, len(self.live_conns())))
+    if len(self.live_conns()) > self.cfg['max']:
+      self.fail('too-many-connections', '%d connections in existence after the re-open, max_watermark %d' % (len(self.live_conns()), self.cfg['max']))
 
 
 def execute(plan):
